@@ -78,6 +78,12 @@ def relStr : RelKind → Str
 def combStr : Comb → Str
   | .desc => [' '] | .child => ['>'] | .adj => ['+'] | .sib => ['~']
 
+/-- the value part of `attrSelector.String`: nothing for `[key]`, else the quoted escaped value -/
+def valPart (op : AttrOp) (val : Str) : Str :=
+  match op with
+  | .has => val
+  | _ => '"' :: escapeString val ++ ['"']
+
 def nthName (last ofType : Bool) : Str :=
   match last, ofType with
   | true, true => strOf "nth-last-of-type"
@@ -100,9 +106,7 @@ mutual
     | .id name => '#' :: escape name
     | .cls name => '.' :: escape name
     | .attr key val op ic =>
-      '[' :: escape key ++ opStr op ++
-        (match op with | .has => val | _ => '"' :: escapeString val ++ ['"']) ++
-        (if ic then [' ', 'i'] else []) ++ [']']
+      '[' :: escape key ++ opStr op ++ valPart op val ++ (if ic then [' ', 'i'] else []) ++ [']']
     | .nth a b last ofType => printNth a b last ofType
     | .only ofType => strOf (if ofType then ":only-of-type" else ":only-child")
     | .empty => strOf ":empty"
